@@ -45,6 +45,7 @@ static size_t pos;                 /* stream position of the next byte the peer 
 static int peer_shut;
 static unsigned strip_mask, add_mask;
 static unsigned accepted;
+static int wbig_done;                /* a large write is (or was) queued towards the peer */
 
 static unsigned char pat(size_t p) { return (unsigned char) ((p * 7u + 3u) % 251u); }
 
@@ -223,6 +224,10 @@ static void do_wbig(void) {
   int rc;
   req->data = calloc(1, n);
   b = uv_buf_init(req->data, (unsigned) n);
+  /* TCP: a peer that closed, then receives data, answers RST, and an RST discards what is still queued
+   * towards us - bytes the kernel never delivers to the descriptor.  No wbig after a full close there. */
+  if (h.s.type == UV_TCP && peerfd < 0) { printf("#ignored\n"); free(req->data); free(req); return; }
+  wbig_done = 1;
   rc = closing ? UV_EBADF : uv_write(req, &h.s, &b, 1, wbig_cb);
   printf("#wbig %d wqs=%zu\n", rc, closing ? (size_t) 0 : uv_stream_get_write_queue_size(&h.s));
   if (rc != 0) { free(req->data); free(req); }
@@ -313,6 +318,11 @@ int main(void) {
         if (!strcmp(k, "fd") && h.s.type != UV_NAMED_PIPE) printf("#ignored\n"); else peer_write(n, !strcmp(k, "fd"));
       } else if (c == 1 && !strcmp(k, "shut")) {
         printf("op peer shut\n");
+        if (peerfd >= 0 && !peer_shut) { shutdown(peerfd, SHUT_WR); peer_shut = 1; wait_ready(); }
+      } else if (c == 1 && !strcmp(k, "close") && h.s.type == UV_TCP && wbig_done) {
+        /* TCP: closing with unread data in the peer's receive queue sends RST instead of FIN (see do_wbig):
+         * half-close instead; Unix sockets never discard data already queued to the other side */
+        printf("op peer shut\n#downgraded-close\n");
         if (peerfd >= 0 && !peer_shut) { shutdown(peerfd, SHUT_WR); peer_shut = 1; wait_ready(); }
       } else if (c == 1 && !strcmp(k, "close")) {
         printf("op peer close\n");
